@@ -18,6 +18,36 @@ NA = {
 }
 
 CHECKS = {
+ "C04": dict(
+  engine="cli-sim", category="exploration", design_ref="DESIGN.md 4.4",
+  technique="deterministic simulation of the run loop of main(): seeded/enumerated file sequences, argument vs glob-seam order permutations, fatal file mid-run, I/O faults at the read seam; oracle = executable model M-run over each file's outcome alone",
+  text="The real main() runs in a forked child on a scratch tree; the simulator chooses the sequence of files (all 341 class sequences of length 0..4 over {clean, notice-only, erroneous, fatal} x 3 modes are executed, longer sequences and all orders of sampled multisets are seeded), the order in which a directory's files are processed (explicit permutations of the glob seam) and, in a separate configuration, a failing open(). M-run predicts the multiset of verdict lines and the exit status from each file's measured outcome alone. The bounded part (length <= 4) is exhaustive over class sequences, sampled over concrete files.",
+  note="Trusted: in-process main() with SystemExit captured stands for the process (fidelity sample against a real `python -m norminette` subprocess in every run); M-run says nothing when a selected file alone ends in an internal error or hang (C05's matter). Sampling beyond length 4."),
+ "C05": dict(
+  engine="read-fault-sim", category="fault_enumeration", design_ref="DESIGN.md 4.5",
+  technique="deterministic simulation with fault injection at the read seam: every token-boundary short read, every single-token loss, torn/corrupt/undecodable reads, tokenizer alone on exhaustive short strings and long runs; liveness decided on a simulated tick clock",
+  text="norminette.file.open is a seam that delivers a prefix, a torn or a corrupted version of each workload program; for every workload program and both file types EVERY token boundary (short read) and every single-token deletion is executed, plus mid-token cuts, seeded replace/insert/swap/pair edits, byte flips, non-ASCII and invalid UTF-8. Time is a tick counter on Context.peek_token / Lexer.raw_peek / Registry.run_rules with a no-progress deadline of 1000*(tokens+50) ticks, so hangs are decided in simulated time and reported with their call site. Outcome must be verdict or CParsingError; at CLI level an integer status and a report or fatal line. Fault points are enumerated per program; programs are sampled.",
+  note="Trusted: tick-clock wrappers do not change behaviour; deadline calibrated with >10x headroom (max observed ratio is reported). Loops that do not tick are caught by a wall backstop that never converts a slow-but-advancing run into a hang (such runs are reported as inconclusive 'slow'). The oracle does not say which of verdict/fatal a damaged file gets."),
+ "C07": dict(
+  engine="read-fault-sim+conservation-monitor", category="fault_enumeration", design_ref="DESIGN.md 4.7",
+  technique="deterministic simulation with a run-time conservation monitor on Context.pop_tokens/update; fault injection of unrecognisable fragments at every statement boundary with the trailing newline kept or lost",
+  text="Wrappers of Context.pop_tokens, Context.update and Registry.run_rules record one event per main-loop iteration; invariants I1 (every iteration consumes >=1 token, segments consecutive and covering), I2 (in files the tool itself finds clean every statement starts at column 1 and ends at a line end; generated files: statements recognised == statements emitted) and I3 (scope back at file level after each function) are checked while runs proceed. In the fault configuration every statement boundary of every base program gets seeded fragments of the unrecognisable family, newline kept or lost, through the real main(): whenever the monitor saw an iteration matching no primary, the run must end with the fatal line naming the file and non-zero status (I4).",
+  note="'Unrecognisable' is measured by the monitor, not assumed. I4 asserted for default options only. Boundaries are enumerated per base program; base programs and (in the quick tier) fragments are sampled."),
+ "C08": dict(
+  engine="cli-sim+wellformedness-monitor", category="exploration", design_ref="DESIGN.md 4.8",
+  technique="deterministic simulation varying the emission order of diagnostics (explicit permutations of Errors._inner before formatting), the output format and input damage; well-formedness monitor on every printed report",
+  text="Every report printed by a simulated run is checked for W1 (catalogue code/text, level, position inside the delivered content) and W2 (ascending printed positions); each run is paired with its -f json twin (W3: stdout is one JSON document describing the same files, verdicts, diagnostics, order) and re-run under K explicit permutations of the diagnostics' emission order (W4: report identical up to ties of equal position and code). Damaged inputs (torn reads, token edits, lexical junk, non-ASCII) provide multi-highlight diagnostics, ties and non-ASCII text; synthetic diagnostic lists over a 4x4 position grid are pushed through both formatters under permutations.",
+  note="Weakest fit of the technique (configuration/emission-order swarming, no fault in the statement). Comparator laws are sampled through synthetic lists, not enumerated. Runs with a fatal file are excluded from W3 (statement silent). One open known finding: BAD_LEXEME is not a catalogue code."),
+ "C15": dict(
+  engine="cli-sim", category="exploration", design_ref="DESIGN.md 4.15",
+  technique="deterministic simulation of file discovery on a real scratch file system: seeded directory trees and argument lists, glob-order permutations, stub git peer with failures, vanishing files; oracle = independent walk of the model tree (M-discover / M-ignore)",
+  text="Per run a seeded model tree (names with spaces, interior dots, look-alike suffixes, empty directories, non-C files, directories named like C files) is materialised under /dev/shm so that glob and pathlib are real; main() runs with 0..5 seeded arguments from a seeded cwd, with/without --use-gitignore against an in-process git model, every glob result permuted explicitly. The multiset of verdict basenames, rejection messages and abort status must equal what an independent walk of the model predicts. Separate configurations inject git rc 128, a missing git binary and a file vanishing between discovery and read (relaxed oracles).",
+  note="Trusted: SimGit (validated against the real git binary on a sample in every run, 50 scenarios in the thorough tier). Outside the domain, never flagged: hidden names, glob metacharacters, symlinks, unreadable directories."),
+ "C16": dict(
+  engine="cli-sim", category="exploration", design_ref="DESIGN.md 4.16",
+  technique="deterministic simulation over the run configuration: the full 144-vector option lattice per sampled file and the input channel (disk read through the open seam vs argv); oracle relative to the reference vector run alone",
+  text="For each sampled workload file (all classes, both file types) all 144 option vectors {--no-colors} x {-f json|humanized} x {-o} x {none,-d,-dd} x {none,-R <word>,-R CheckDefine} x {disk, --cfile/--hfile --filename} are executed through the real main(), each in its own forked child; the structural report (formatter object captured at the print seam, so debug chatter cannot be confused with it) must equal the reference vector's: same verdict and (level, code, line, column, text). -R CheckDefine: diagnostics are a sub-multiset of the reference, the removed ones emitted by the #define-value check (measured from which check class called Errors.add) on #define lines.",
+  note="Option lattice exhaustive per file; files sampled. Domain: contents without CR/NUL. Runs that reach no verdict under one of the two vectors are excluded from (a), as the statement says."),
  "C06": dict(
   engine="history-sim", category="exploration", design_ref="DESIGN.md 4.6",
   technique="deterministic simulation: seeded search over histories of analyses in one process (API and CLI level), rule-directory listing permutations, hash seeds and path spellings; oracle = same outcome as alone in a pristine forked process",
@@ -62,7 +92,12 @@ def main():
 
 
 PENDING = {}
-ENGINES_EXTRA = []
+ENGINES_EXTRA = [
+    {"name": "cli-sim", "path": "/verif/nsim/engines/c04.py, c15.py, c16.py, c08.py", "serves_properties": ["C04", "C15", "C16", "C08"],
+     "kind_free_text": "the real main() in a forked child on a scratch tree behind glob/open/git/print seams"},
+    {"name": "read-fault-sim", "path": "/verif/nsim/engines/c05.py, c07.py", "serves_properties": ["C05", "C07"],
+     "kind_free_text": "fault injection at the read seam with a simulated tick clock and a conservation monitor"},
+]
 
 if __name__ == "__main__":
     main()
